@@ -850,4 +850,425 @@ theorem traverseNode_ok (g : Graph) (H0 hid0 : List Nat) (ctx : Ctx g H0 hid0) (
       rw [hat] at h3
       exact hev.trans (Ok.of_upd h2 h3)
 
+theorem plain_exit (wid : String) : Plain (.exit wid) := ⟨fun _ _ _ _ h => by simp at h, fun _ _ _ _ _ h => by simp at h⟩
+theorem plain_sleep (wid : String) (q : Nat) : Plain (.sleep wid q) :=
+  ⟨fun _ _ _ _ h => by simp at h, fun _ _ _ _ _ h => by simp at h⟩
+theorem plain_raise (wid what : String) : Plain (.raise wid what) :=
+  ⟨fun _ _ _ _ h => by simp at h, fun _ _ _ _ _ h => by simp at h⟩
+theorem plain_finish (wid c uid st : String) : Plain (.finish wid c uid st) :=
+  ⟨fun _ _ _ _ h => by simp at h, fun _ _ _ _ _ h => by simp at h⟩
+
+theorem Ok.single {g : Graph} {H0 : List Nat} {w : Nat} {s s1 : State} {e : Event} (a : Upd g H0 w s s1) (h : Plain e) :
+    Ok g H0 w s s1 [e] :=
+  ⟨a, fun e' he => by rw [List.mem_singleton.mp he]; exact EvOk.of_plain h⟩
+
+/-- one iteration of the loop on the graph visible with `hid0` hidden -/
+theorem iter_ok (g : Graph) (H0 hid0 : List Nat) (ctx : Ctx g H0 hid0) (w : Nat) (s : State)
+    (hsub : ∀ h ∈ s.hidden, h ∈ hid0) (hlen : s.nodes.length = g.nodes.length) (hpath : PathOk g w s) :
+    Ok g H0 w s (iter (visH g hid0) s w).1 (iter (visH g hid0) s w).2.1 := by
+  have hsn := sameNodes_visH g hid0
+  have hwfv := ctx.wf.visH hid0
+  unfold iter
+  dsimp only
+  split
+  · split
+    · exact Ok.single (upd_setWd g H0 w s _ (fun _ _ x hx => by simp at hx) (fun _ => Or.inr rfl)) (plain_exit _)
+    · exact Ok.silent (Upd.refl g H0 w s)
+  · cases hl : (s.wd w).path.getLast? with
+    | none => exact Ok.silent (Upd.refl g H0 w s)
+    | some next =>
+      obtain ⟨hnext, hrel⟩ := hpath next (List.mem_of_getLast? hl)
+      dsimp only
+      split
+      · cases hp : pickChild (visH g hid0) s next w with
+        | none => exact Ok.silent (Upd.refl g H0 w s)
+        | some r => obtain ⟨c, s2⟩ := r; exact Ok.silent (upd_pickChild g H0 w _ hsn hwfv s next c s2 hp)
+      · by_cases hocc : isOccupied (visH g hid0) s next w = true
+        · -- bounce
+          simp only [hocc, if_true]
+          refine Ok.single (Upd.trans ?_ (upd_setWd g H0 w _ _ ?_ (fun _ => Or.inr rfl))) (plain_sleep _ _)
+          · split
+            · refine Upd.trans ?_ (upd_setWd g H0 w _ _ (fun _ h => h) (fun _ => Or.inl rfl))
+              split
+              · exact upd_setNd g H0 w s next _ (fun _ => rfl)
+              · exact Upd.refl g H0 w s
+            · exact upd_setWd g H0 w s _ (fun _ h => h) (fun _ => Or.inl rfl)
+          · intro d _ x hx
+            have hx' : x = (visH g hid0).root := by simpa using hx
+            rw [hx', hsn.root]; exact ctx.root_ok w
+        · have hocc' : isOccupied (visH g hid0) s next w = false := by simpa using hocc
+          simp only [hocc', Bool.false_eq_true, if_false]
+          by_cases hready : isSetupReady (visH g hid0) s next w = true
+          · simp only [hready, if_true, Bool.not_true, Bool.false_eq_true, if_false]
+            split
+            · exact traverseNode_ok g H0 hid0 ctx w s next _ .up hsub hlen hnext hrel hocc' hready
+            · split
+              · exact traverseNode_ok g H0 hid0 ctx w s next _ .down hsub hlen hnext hrel hocc' hready
+              · exact Ok.silent (Upd.refl g H0 w s)
+          · have hready' : isSetupReady (visH g hid0) s next w = false := by simpa using hready
+            simp only [hready', Bool.false_eq_true, if_false, Bool.not_false, if_true]
+            split
+            · cases hp : pickParent (visH g hid0) s next w with
+              | none => exact Ok.silent (Upd.refl g H0 w s)
+              | some r => obtain ⟨c, s2⟩ := r; exact Ok.silent (upd_pickParent g H0 w _ hsn hwfv s next c s2 hp)
+            · split
+              · cases hp : pickParent (visH g hid0) s next w with
+                | none => exact Ok.silent (Upd.refl g H0 w s)
+                | some r => obtain ⟨c, s2⟩ := r; exact Ok.silent (upd_pickParent g H0 w _ hsn hwfv s next c s2 hp)
+              · exact Ok.silent (Upd.refl g H0 w s)
+
+theorem upd_reveal (g : Graph) (H0 : List Nat) (w : Nat) (s : State) (f v : Nat) : Upd g H0 w s (reveal g s f v) := by
+  unfold reveal
+  dsimp only
+  split
+  · exact Upd.quiet rfl (fun _ h => h) (fun _ => rfl) (fun _ => rfl) (fun _ => rfl) (fun _ => rfl)
+  · exact Upd.quiet rfl (fun _ h => (List.mem_filter.mp h).1) (fun _ => rfl) (fun _ => rfl) (fun _ => rfl) (fun _ => rfl)
+
+theorem upd_prepare (g : Graph) (H0 : List Nat) (w : Nat) (s : State) : Upd g H0 w s (prepare g s w) := by
+  unfold prepare
+  dsimp only
+  cases (s.wd w).path.getLast? with
+  | none => exact Upd.refl g H0 w s
+  | some next =>
+    dsimp only
+    have h0 : Upd g H0 w s (s.setWd w (fun d => { d with unexplored := !(unexploredNodes (vis g s) s).isEmpty })) :=
+      upd_setWd g H0 w s _ (fun _ h => h) (fun _ => Or.inl rfl)
+    split
+    · exact h0.trans (upd_reveal g H0 w _ next w)
+    · exact h0
+
+/-- one iteration including the lazy expansion step -/
+theorem iterL_ok (g : Graph) (H0 : List Nat) (hwf : GraphWF g) (hroot : (g.node g.root).flat = true) (w : Nat) (s : State)
+    (hH : ∀ h ∈ s.hidden, h ∈ H0) (hlen : s.nodes.length = g.nodes.length) (hpath : PathOk g w s) :
+    Ok g H0 w s (iterL g s w).1 (iterL g s w).2.1 := by
+  unfold iterL
+  split
+  · rw [vis_eq_visH]
+    exact iter_ok g H0 s.hidden ⟨hwf, hroot, hH⟩ w s (fun _ h => h) hlen hpath
+  · dsimp only
+    have h0 := upd_prepare g H0 w s
+    rw [vis_eq_visH]
+    exact Ok.of_upd h0 (iter_ok g H0 (prepare g s w).hidden ⟨hwf, hroot, fun h hh => hH h (h0.hidden h hh)⟩ w _
+      (fun _ h => h) (h0.nodesLen.trans hlen) (h0.path hpath))
+
+/-- the loop up to the next suspension: the events are those handed in plus events of known provenance -/
+theorem runLoop_ok (g : Graph) (H0 : List Nat) (hwf : GraphWF g) (hroot : (g.node g.root).flat = true) (w : Nat) (fuel : Nat)
+    (s : State) (evs : List Event)
+    (hH : ∀ h ∈ s.hidden, h ∈ H0) (hlen : s.nodes.length = g.nodes.length) (hpath : PathOk g w s) :
+    Upd g H0 w s (runLoop g w fuel s evs).1 ∧ ∀ e ∈ (runLoop g w fuel s evs).2, e ∈ evs ∨ EvOk g H0 w s e := by
+  induction fuel generalizing s evs with
+  | zero =>
+    unfold runLoop
+    refine ⟨Upd.refl g H0 w s, fun e he => ?_⟩
+    rcases List.mem_append.mp he with he | he
+    · exact Or.inl he
+    · rw [List.mem_singleton.mp he]; exact Or.inr (EvOk.of_plain (plain_raise _ _))
+  | succ fuel ih =>
+    unfold runLoop
+    dsimp only
+    have h0 : Upd g H0 w s (s.setWd w (fun d => { d with pc := .loop })) := upd_setPc g H0 w s .loop rfl
+    have he := iterL_ok g H0 hwf hroot w _ (fun h hh => hH h (h0.hidden h hh)) (h0.nodesLen.trans hlen) (h0.path hpath)
+    rcases hi : iterL g (s.setWd w (fun d => { d with pc := .loop })) w with ⟨s1, e, f⟩
+    rw [hi] at he
+    have h1 : Upd g H0 w s s1 := h0.trans he.1
+    have hev : ∀ x ∈ evs ++ e, x ∈ evs ∨ EvOk g H0 w s x := by
+      intro x hx
+      rcases List.mem_append.mp hx with hx | hx
+      · exact Or.inl hx
+      · exact Or.inr ((he.2 x hx).mono h0)
+    cases f with
+    | cont =>
+      dsimp only
+      obtain ⟨h2, h3⟩ := ih s1 (evs ++ e) (fun h hh => hH h (h1.hidden h hh)) (h1.nodesLen.trans hlen) (h1.path hpath)
+      refine ⟨h1.trans h2, fun x hx => ?_⟩
+      rcases h3 x hx with hx | hx
+      · exact hev x hx
+      · exact Or.inr (hx.mono h1)
+    | suspend => exact ⟨h1, hev⟩
+    | exit => exact ⟨h1, hev⟩
+    | raise what =>
+      dsimp only
+      refine ⟨h1.trans (upd_setPc g H0 w s1 .failed rfl), fun x hx => ?_⟩
+      rcases List.mem_append.mp hx with hx | hx
+      · exact hev x hx
+      · rw [List.mem_singleton.mp hx]; exact Or.inr (EvOk.of_plain (plain_raise _ _))
+
+/-! ## the resumption part of a step -/
+
+/-- first block of the second half of `run_test_node`: the stub's report (a definitional factor of `resumeTest`) -/
+def reportOutcomeR (g : Graph) (s : State) (w n : Nat) (phase : Phase) (uid : String) (wait : Nat) (out : Outcome) :
+    State × List Event :=
+  let wid := (g.worker w).id
+  let name := if phase == .pre then (s.wd w).preName else (g.node n).name
+  if wait == 0 then
+    match out.status with
+    | some st =>
+      let s := { s with jobResults := s.jobResults ++ [(name, uid, st, out.dur)] }
+      let s := if (st == "PASS" || st == "WARN") && phase != .pre then produce g s n w else s
+      (s, [Event.finish wid (clsName g n phase) uid st])
+    | none => (s, [Event.finish wid (clsName g n phase) uid "NONE"])
+  else (s, [])
+
+/-- the found result replaces the placeholder; returns the state and whether the status counts as success -/
+def recordResultR (s : State) (w n : Nat) (phase : Phase) (name uid : String) (tag : Nat) (st0 : String) (dur : Nat) :
+    State × Bool :=
+  let prior := if phase == .pre then (s.wd w).preResults else (s.nd n).results
+  let maxAllowed := ((prior.filter (·.status == "PASS")).map (·.dur)).foldl max 0
+  let maxAllowed := if (prior.filter (·.status == "PASS")).isEmpty then dur else maxAllowed
+  let st := if st0 == "PASS" && 4 * dur > 5 * maxAllowed then "WARN" else st0
+  let s := if st != st0 then
+      { s with jobResults := s.jobResults.map (fun r => if r.1 == name && r.2.1 == uid then (r.1, r.2.1, st, r.2.2.2) else r) }
+    else s
+  let res : Result := { name := name, status := st, uid := uid, dur := dur }
+  let s :=
+    if phase == .pre then
+      s.setWd w (fun d => { d with preResults := (d.preResults ++ [res]).filter (fun r => !(r.status == "UNKNOWN" && r.tag == tag)) })
+    else
+      s.setNd n (fun d => { d with results := (d.results ++ [res]).filter (fun r => !(r.status == "UNKNOWN" && r.tag == tag)) })
+  (s, !(lower st == "error" || lower st == "fail"))
+
+theorem resumeTest_eqR (g : Graph) (s : State) (w n : Nat) (phase : Phase) (dir : Dir) (uid : String) (tag wait : Nat)
+    (out : Outcome) (fuel : Nat) :
+    resumeTest g s w n phase dir uid tag wait out fuel =
+      (match (reportOutcomeR g s w n phase uid wait out).1.jobResults.find?
+          (fun r => r.1 == (if phase == .pre then (s.wd w).preName else (g.node n).name) && r.2.1 == uid) with
+       | some (_, _, st0, dur) =>
+         resumeTest.continueAfter g w n phase dir fuel
+           (recordResultR (reportOutcomeR g s w n phase uid wait out).1 w n phase
+             (if phase == .pre then (s.wd w).preName else (g.node n).name) uid tag st0 dur).1
+           (recordResultR (reportOutcomeR g s w n phase uid wait out).1 w n phase
+             (if phase == .pre then (s.wd w).preName else (g.node n).name) uid tag st0 dur).2
+           (reportOutcomeR g s w n phase uid wait out).2
+       | none =>
+         if wait + 1 < 10 then
+           ((reportOutcomeR g s w n phase uid wait out).1.setWd w (fun d => { d with pc := .test n phase dir uid tag (wait + 1) }),
+            (reportOutcomeR g s w n phase uid wait out).2 ++ [Event.sleep (g.worker w).id 3000])
+         else if wait + 1 == 10 then
+           ((reportOutcomeR g s w n phase uid wait out).1.setWd w (fun d => { d with pc := .test n phase dir uid tag (wait + 1) }),
+            (reportOutcomeR g s w n phase uid wait out).2 ++ [Event.sleep (g.worker w).id 3000])
+         else resumeTest.continueAfter g w n phase dir fuel (reportOutcomeR g s w n phase uid wait out).1 false
+           (reportOutcomeR g s w n phase uid wait out).2) := rfl
+
+theorem upd_jobResults (g : Graph) (H0 : List Nat) (w : Nat) (s : State) (j : List (String × String × String × Nat)) :
+    Upd g H0 w s { s with jobResults := j } :=
+  Upd.quiet rfl (fun _ h => h) (fun _ => rfl) (fun _ => rfl) (fun _ => rfl) (fun _ => rfl)
+
+theorem reportOutcomeR_ok (g : Graph) (H0 : List Nat) (s : State) (w n : Nat) (phase : Phase) (uid : String) (wait : Nat)
+    (out : Outcome) :
+    Upd g H0 w s (reportOutcomeR g s w n phase uid wait out).1 ∧ ∀ e ∈ (reportOutcomeR g s w n phase uid wait out).2, Plain e := by
+  unfold reportOutcomeR
+  dsimp only
+  split
+  · split
+    · refine ⟨?_, fun e he => by rw [List.mem_singleton.mp he]; exact plain_finish _ _ _ _⟩
+      split
+      · exact (upd_jobResults g H0 w s _).trans (upd_store g H0 w _ _)
+      · exact upd_jobResults g H0 w s _
+    · exact ⟨Upd.refl g H0 w s, fun e he => by rw [List.mem_singleton.mp he]; exact plain_finish _ _ _ _⟩
+  · exact ⟨Upd.refl g H0 w s, fun e he => by simp at he⟩
+
+theorem upd_recordResultR (g : Graph) (H0 : List Nat) (s : State) (w n : Nat) (phase : Phase) (name uid : String) (tag : Nat)
+    (st0 : String) (dur : Nat) : Upd g H0 w s (recordResultR s w n phase name uid tag st0 dur).1 := by
+  unfold recordResultR
+  dsimp only
+  have hX : ∀ (c : Bool) (jr : List (String × String × String × Nat)),
+      Upd g H0 w s (if c = true then { s with jobResults := jr } else s) := by
+    intro c jr
+    cases c
+    · exact Upd.refl g H0 w s
+    · exact upd_jobResults g H0 w s jr
+  by_cases hp : (phase == Phase.pre) = true
+  · simp only [hp, if_true]
+    exact (hX _ _).trans (upd_setWd g H0 w _ _ (fun _ h => h) (fun _ => Or.inl rfl))
+  · simp only [hp, Bool.false_eq_true, if_false]
+    exact (hX _ _).trans (upd_setNd g H0 w _ n _ (fun _ => rfl))
+
+theorem relevant_of_idIn {g : Graph} {w n : Nat} (h : g.idIn w n = true) : relevant g w n = true := by
+  unfold relevant; rw [h]; simp
+
+/-- the continuation after the awaited test on node `n` (which was setup-ready when the test was started) -/
+theorem continueAfter_ok (g : Graph) (H0 : List Nat) (hwf : GraphWF g) (hroot : (g.node g.root).flat = true) (w n : Nat)
+    (ph : Phase) (dir : Dir) (fuel : Nat) (s : State) (ok : Bool) (evs : List Event)
+    (hH : ∀ h ∈ s.hidden, h ∈ H0) (hlen : s.nodes.length = g.nodes.length) (hpath : PathOk g w s)
+    (hr : ReadyAt g H0 s w n) :
+    Upd g H0 w s (resumeTest.continueAfter g w n ph dir fuel s ok evs).1 ∧
+      ∀ e ∈ (resumeTest.continueAfter g w n ph dir fuel s ok evs).2, e ∈ evs ∨ EvOk g H0 w s e := by
+  unfold resumeTest.continueAfter
+  dsimp only
+  by_cases hc : (ph == Phase.pre && ok) = true
+  · simp only [hc, if_true]
+    have h3 := startTest_ok g H0 w g (SameNodes.refl g) s n .main dir hr
+    rcases hst : startTest g s n w .main dir with ⟨s2, e2, f⟩
+    rw [hst] at h3
+    refine ⟨h3.1, fun e he => ?_⟩
+    rcases List.mem_append.mp he with he | he
+    · exact Or.inl he
+    · exact Or.inr (h3.2 e he)
+  · simp only [hc, Bool.false_eq_true, if_false]
+    have hsd : Upd g H0 w s (if (ph == Phase.pre) = true then
+          s.setNd n (fun d => { d with results := d.results ++ List.drop d.results.length (s.wd w).preResults })
+        else s) := by
+      split
+      · exact upd_setNd g H0 w s n _ (fun _ => rfl)
+      · exact Upd.refl g H0 w s
+    generalize (if (ph == Phase.pre) = true then
+          s.setNd n (fun d => { d with results := d.results ++ List.drop d.results.length (s.wd w).preResults })
+        else s) = sd at hsd ⊢
+    have hn := hr.1
+    have hrel : relevant g w n = true := relevant_of_idIn hr.2.1
+    have hf : Upd g H0 w sd (finishTraverse sd n w) := upd_finishTraverse g H0 w sd n hn hrel
+    have hlen2 : (finishTraverse sd n w).nodes.length = g.nodes.length := hf.nodesLen.trans (hsd.nodesLen.trans hlen)
+    have hfin : ((finishTraverse sd n w).nd n).finished = some w := by
+      unfold finishTraverse; rw [nd_setNd_eq sd n _ (by rw [hsd.nodesLen, hlen]; exact hn)]
+    have hH2 : ∀ h ∈ (finishTraverse sd n w).hidden, h ∈ H0 := fun h hh => hH h (hsd.hidden h (hf.hidden h hh))
+    have h3 := afterTraverse_ok g H0 (finishTraverse sd n w).hidden ⟨hwf, hroot, hH2⟩ w (finishTraverse sd n w) n
+      ((s.wd w).path.getD ((s.wd w).path.length - 2) 0) dir (fun _ h => h) hlen2 hn hrel (fun _ => hfin)
+    rw [← vis_eq_visH g (finishTraverse sd n w)] at h3
+    rcases hat : afterTraverse (vis g (finishTraverse sd n w)) (finishTraverse sd n w) w n
+      ((s.wd w).path.getD ((s.wd w).path.length - 2) 0) dir with ⟨s2, e2, f⟩
+    rw [hat] at h3
+    have h1 : Upd g H0 w s s2 := hsd.trans (hf.trans h3.1)
+    have hev : ∀ x ∈ evs ++ e2, x ∈ evs ∨ EvOk g H0 w s x := by
+      intro x hx
+      rcases List.mem_append.mp hx with hx | hx
+      · exact Or.inl hx
+      · exact Or.inr ((h3.2 x hx).mono (hsd.trans hf))
+    have hloop : Upd g H0 w s (runLoop g w fuel s2 (evs ++ e2)).1 ∧
+        ∀ e ∈ (runLoop g w fuel s2 (evs ++ e2)).2, e ∈ evs ∨ EvOk g H0 w s e := by
+      obtain ⟨h4, h5⟩ := runLoop_ok g H0 hwf hroot w fuel s2 (evs ++ e2) (fun h hh => hH h (h1.hidden h hh))
+        (h1.nodesLen.trans hlen) (h1.path hpath)
+      refine ⟨h1.trans h4, fun x hx => ?_⟩
+      rcases h5 x hx with hx | hx
+      · exact hev x hx
+      · exact Or.inr (hx.mono h1)
+    cases f with
+    | raise what =>
+      dsimp only
+      refine ⟨h1.trans (upd_setPc g H0 w s2 .failed rfl), fun x hx => ?_⟩
+      rcases List.mem_append.mp hx with hx | hx
+      · exact hev x hx
+      · rw [List.mem_singleton.mp hx]; exact Or.inr (EvOk.of_plain (plain_raise _ _))
+    | cont => exact hloop
+    | suspend => exact hloop
+    | exit => exact hloop
+
+theorem resumeTest_ok (g : Graph) (H0 : List Nat) (hwf : GraphWF g) (hroot : (g.node g.root).flat = true) (s : State)
+    (w n : Nat) (ph : Phase) (dir : Dir) (uid : String) (tag wait : Nat) (out : Outcome) (fuel : Nat)
+    (hH : ∀ h ∈ s.hidden, h ∈ H0) (hlen : s.nodes.length = g.nodes.length) (hpath : PathOk g w s)
+    (hr : ReadyAt g H0 s w n) :
+    Ok g H0 w s (resumeTest g s w n ph dir uid tag wait out fuel).1 (resumeTest g s w n ph dir uid tag wait out fuel).2 := by
+  rw [resumeTest_eqR]
+  obtain ⟨ha, hea⟩ := reportOutcomeR_ok g H0 s w n ph uid wait out
+  have hra : ReadyAt g H0 (reportOutcomeR g s w n ph uid wait out).1 w n := hr.mono ha.hidden ha.monoS
+  have hwait : Ok g H0 w s
+      ((reportOutcomeR g s w n ph uid wait out).1.setWd w (fun d => { d with pc := .test n ph dir uid tag (wait + 1) }))
+      ((reportOutcomeR g s w n ph uid wait out).2 ++ [Event.sleep (g.worker w).id 3000]) := by
+    refine ⟨ha.trans (upd_setWd_test g H0 w _ _ n (fun _ => rfl) (fun _ => ⟨_, _, _, _, _, rfl⟩) hra), fun e he => ?_⟩
+    rcases List.mem_append.mp he with he | he
+    · exact EvOk.of_plain (hea e he)
+    · rw [List.mem_singleton.mp he]; exact EvOk.of_plain (plain_sleep _ _)
+  have hcont : ∀ sb ok, Upd g H0 w (reportOutcomeR g s w n ph uid wait out).1 sb →
+      Ok g H0 w s (resumeTest.continueAfter g w n ph dir fuel sb ok (reportOutcomeR g s w n ph uid wait out).2).1
+        (resumeTest.continueAfter g w n ph dir fuel sb ok (reportOutcomeR g s w n ph uid wait out).2).2 := by
+    intro sb ok hb
+    have hab := ha.trans hb
+    obtain ⟨h1, h2⟩ := continueAfter_ok g H0 hwf hroot w n ph dir fuel sb ok (reportOutcomeR g s w n ph uid wait out).2
+      (fun h hh => hH h (hab.hidden h hh)) (hab.nodesLen.trans hlen) (hab.path hpath) (hr.mono hab.hidden hab.monoS)
+    refine ⟨hab.trans h1, fun e he => ?_⟩
+    rcases h2 e he with he | he
+    · exact EvOk.of_plain (hea e he)
+    · exact he.mono hab
+  split
+  · next st0 dur _ => exact hcont _ _ (upd_recordResultR g H0 _ w n ph _ uid tag st0 dur)
+  · split
+    · exact hwait
+    · split
+      · exact hwait
+      · exact hcont _ _ (Upd.refl g H0 w _)
+
+/-- one scheduler step -/
+theorem resume_ok (g : Graph) (H0 : List Nat) (hwf : GraphWF g) (hroot : (g.node g.root).flat = true) (s : State)
+    (w : Nat) (out : Outcome) (fuel : Nat) (t : Trv g H0 s) :
+    Ok g H0 w s (resume g s w out fuel).1 (resume g s w out fuel).2 := by
+  have hloop : Ok g H0 w s (runLoop g w fuel s []).1 (runLoop g w fuel s []).2 := by
+    obtain ⟨h1, h2⟩ := runLoop_ok g H0 hwf hroot w fuel s [] t.hidden t.nodesLen (t.path w)
+    refine ⟨h1, fun e he => ?_⟩
+    rcases h2 e he with he | he
+    · simp at he
+    · exact he
+  unfold resume
+  split
+  · exact hloop
+  · exact hloop
+  · next n ph dir uid tag wait hpc =>
+    exact resumeTest_ok g H0 hwf hroot s w n ph dir uid tag wait out fuel t.hidden t.nodesLen (t.path w)
+      (t.pc w n ph dir uid tag wait hpc)
+  · exact Ok.silent (Upd.refl g H0 w s)
+  · exact Ok.silent (Upd.refl g H0 w s)
+
+theorem Trv.step {g : Graph} {H0 : List Nat} (hwf : GraphWF g) (hroot : (g.node g.root).flat = true) (hu : UniqueId g)
+    {s : State} (t : Trv g H0 s) (w : Nat) (out : Outcome) (fuel : Nat) : Trv g H0 (resume g s w out fuel).1 :=
+  t.upd hu (resume_ok g H0 hwf hroot s w out fuel t).1
+
+theorem Trv.init (g : Graph) (hwf : GraphWF g) (hroot : (g.node g.root).flat = true) (ncls : Nat)
+    (store : List (String × List (String × String))) (H0 : List Nat) : Trv g H0 (initState g ncls store H0) := by
+  have hnd : ∀ m, ((initState g ncls store H0).nd m).finished = none := by
+    intro m
+    unfold initState State.nd
+    simp only [List.getD_eq_getElem?_getD, List.getElem?_map]
+    cases g.nodes[m]? <;> rfl
+  have hcr : ∀ c, (initState g ncls store H0).cr c = {} := by
+    intro c
+    unfold initState State.cr
+    simp only [List.getD_eq_getElem?_getD, List.getElem?_map]
+    cases (List.range ncls)[c]? <;> rfl
+  have hwd : ∀ v, ((initState g ncls store H0).wd v) = { path := [g.root] } ∨ ((initState g ncls store H0).wd v) = {} := by
+    intro v
+    unfold initState State.wd
+    simp only [List.getD_eq_getElem?_getD, List.getElem?_map]
+    cases g.workers[v]?
+    · right; rfl
+    · left; rfl
+  refine ⟨by simp [initState], fun _ h => h, ?_, ?_, ?_, ?_, ?_⟩
+  · intro i v _ _ h; rw [hnd] at h; cases h
+  · intro c c' v h; rw [hcr] at h; simp [regWorkers] at h
+  · intro c c' v h; rw [hcr] at h; simp [regWorkers] at h
+  · intro v x hx
+    rcases hwd v with h | h
+    · rw [h] at hx
+      have : x = g.root := by simpa using hx
+      rw [this]
+      exact ⟨hwf.root_lt, by unfold relevant; rw [hroot]; rfl⟩
+    · rw [h] at hx; simp at hx
+  · intro v
+    apply PcOk.of_nonTest
+    rcases hwd v with h | h <;> rw [h] <;> rfl
+
+/-! ## reachability -/
+
+/-- the states the scheduler can produce from the initial state in which exactly the nodes `H0` are not parsed yet
+(`[]`: pre-parsed graph): any finite sequence of `resume` steps of any workers with any outcomes and any fuel.
+(`Reachable` of `TravExcl.lean` is `∃ H0, ReachH … H0`.) -/
+inductive ReachH (g : Graph) (ncls : Nat) (store : List (String × List (String × String))) (H0 : List Nat) : State → Prop
+  | init : ReachH g ncls store H0 (initState g ncls store H0)
+  | step (s : State) (w : Nat) (out : Outcome) (fuel : Nat) :
+      ReachH g ncls store H0 s → ReachH g ncls store H0 (resume g s w out fuel).1
+
+theorem ReachH.trv {g : Graph} (hwf : GraphWF g) (hroot : (g.node g.root).flat = true) (hu : UniqueId g) {ncls : Nat}
+    {store : List (String × List (String × String))} {H0 : List Nat} {s : State} (h : ReachH g ncls store H0 s) :
+    Trv g H0 s := by
+  induction h with
+  | init => exact Trv.init g hwf hroot ncls store H0
+  | step s w out fuel _ ih => exact ih.step hwf hroot hu w out fuel
+
+/-- running a schedule: a list of (worker, outcome of the awaited test) -/
+def runSched (g : Graph) (fuel : Nat) (s : State) (l : List (Nat × Outcome)) : State :=
+  l.foldl (fun s p => (resume g s p.1 p.2 fuel).1) s
+
+theorem reachH_runSched (g : Graph) (ncls : Nat) (store : List (String × List (String × String))) (H0 : List Nat) (fuel : Nat)
+    (l : List (Nat × Outcome)) (s : State) (h : ReachH g ncls store H0 s) : ReachH g ncls store H0 (runSched g fuel s l) := by
+  induction l generalizing s with
+  | nil => exact h
+  | cons p l ih => exact ih _ (ReachH.step s p.1 p.2 fuel h)
+
 end I2N.Trav
